@@ -35,6 +35,12 @@ OBLIGATIONS = [
     'C12.from_parts_value', 'C12.fpnum_from_hp_value', 'C12.fpnum_from_sp_value', 'C12.fpnum_from_dp_value',
     # widening conversions are exact
     'C12.convertFinite_exact_normal', 'C12.widen_fields', 'C12.fpnum_widen_hp_sp', 'C12.fpnum_widen_hp_dp', 'C12.fpnum_widen_sp_dp',
+    # narrowing / every conversion of a normalised FPNum: closed form, rounding mode (truncation), exactness on representable values
+    'C12.stdPrec_trunc', 'C12.convertFinite_norm', 'C12.truncFields_of_representable', 'C12.truncFields_rounds_toward_zero',
+    'C12.convertParts_norm', 'C12.convertParts_representable', 'C12.convert_repr_core', 'C12.fpnum_convert_representable',
+    'C12.from_ieee754_normalised', 'C12.fpnum_convert_between', 'C12.fpnum_convert_rounds_toward_zero', 'C12.reducePrecision_spec',
+    # FPNum(float): adjust_sem + adjust_semp, and FPNum(v).convert(fmt) = platform encoding for every representable v
+    'C12.adjust_sem_spec', 'C12.float_to_semp_spec', 'C12.fpnum_float_inf', 'C12.fpnum_float_convert',
 ]
 
 # proposals for /verif/known_findings.json (the integrator merges them); used locally until they are listed there.
@@ -554,13 +560,209 @@ def run_encodings(res, tier, rng, H, st, pool):
         st.add('pack', f'fppack sp | {s},{e},{m}', i2s(real(H.FPNum.pack_ieee754_sp_parts, s, e, m)))
         st.add('pack', f'fppack dp | {s},{e},{m}', i2s(real(H.FPNum.pack_ieee754_dp_parts, s, e, m)))
         st.add('pack', f'fppack fphsp | {s},{e},{m}', i2s(real(FH.pack_ieee754_sp_parts, s, e, m)))
-        v = r.randint(0, (1 << 70))
+        v = r.randint(0, (1 << 70)) if i % 4 else -r.randint(0, (1 << 70))      # values not reduced to the width, negative ints included
         st.add('unpack', f'fpunpack hp | {v}', tup2s(real(H.FPNum.unpack_ieee754_hp_parts, v)))
         st.add('unpack', f'fpunpack sp | {v}', tup2s(real(H.FPNum.unpack_ieee754_sp_parts, v)))
         st.add('unpack', f'fpunpack dp | {v}', tup2s(real(H.FPNum.unpack_ieee754_dp_parts, v)))
         st.add('unpack', f'fpunpack fphsp | {v}', tup2s(real(FH.unpack_ieee754_sp_parts, v)))
         st.add('unpack', f'fpunpack fphdp | {v}', tup2s(real(FH.unpack_ieee754_dp_parts, v)))
 
+
+
+# ---------------------------------------------------------------------------------------------- narrowing / representable values
+def fmt_consts(fmt):
+    eb, mb, _ = FMT[fmt]
+    return eb, mb, (1 << (eb - 1)) - 1, (1 << eb) - 1
+
+
+def decode_fraction(fmt, b):
+    """IEEE 754 value function on a finite pattern, as (neg, Fraction magnitude) — specification, independent of struct"""
+    eb, mb, bias, emask = fmt_consts(fmt)
+    neg = (b >> (eb + mb)) & 1
+    e = (b >> mb) & emask
+    m = b & ((1 << mb) - 1)
+    if e == 0:
+        return neg, Fraction(m) * Fraction(2) ** (1 - bias - mb)
+    return neg, Fraction((1 << mb) + m) * Fraction(2) ** (e - bias - mb)
+
+
+def floor_log2(q):
+    """floor(log2 q) for a positive Fraction"""
+    e = q.numerator.bit_length() - q.denominator.bit_length()
+    if Fraction(2) ** e > q:
+        e -= 1
+    assert Fraction(2) ** e <= q < Fraction(2) ** (e + 1)
+    return e
+
+
+def trunc_encode(fmt, neg, mag):
+    """SPECIFICATION of FPNum.convert on a finite value (theorem fpnum_convert_rounds_toward_zero), stated on the VALUE:
+    magnitude rounded toward zero to the target's grid, subnormal below the smallest normal, infinity from 2^(emax+1) on"""
+    eb, mb, bias, emask = fmt_consts(fmt)
+    sbit = neg << (eb + mb)
+    if mag == 0:
+        return sbit
+    e = floor_log2(mag)
+    if e + bias >= emask:
+        return sbit | (emask << mb)
+    E = max(e, 1 - bias)
+    N = (mag / Fraction(2) ** (E - mb)).__floor__()
+    if N >= (1 << mb):
+        return sbit | ((E + bias) << mb) | (N - (1 << mb))
+    return sbit | N
+
+
+def platform_encode(fmt, neg, mag):
+    """the pattern of `fmt` that denotes exactly (-1)^neg * mag, or None when the value is not representable in fmt"""
+    eb, mb, bias, emask = fmt_consts(fmt)
+    b = trunc_encode(fmt, neg, mag)
+    if ((b >> mb) & emask) == emask:
+        return None
+    n2, m2 = decode_fraction(fmt, b)
+    return b if m2 == mag else None
+
+
+ENC = {'sp': f2sp, 'dp': f2dp, 'hp': lambda x: struct.unpack('<H', struct.pack('<e', x))[0]}
+
+
+def oracle_convert_value(res, H, st, x, neg, mag, origin, rc):
+    """x: a finite FPNum denoting (-1)^neg * mag (exactly, checked by the callers).  For every format:
+       - value representable in the format  ->  x.convert(fmt) must be the platform's encoding (struct)   [the property]
+       - otherwise the Lean specification (truncFields via the driver) and the Fraction specification must describe what the code
+         returned (correspondence of the rounding-mode theorem; a difference is a model disagreement, not a property failure)"""
+    X = fp2s(x)
+    norm = is_pow2(x.p) and (x.m == 0 or x.p <= x.m < 2 * x.p)
+    for fmt in ('hp', 'sp', 'dp'):
+        got = real(x.convert, fmt)
+        st.add('fpnum-convert', f'fpconv {fmt} | {X}', i2s(got), (origin, fmt))
+        plat = platform_encode(fmt, neg, mag)
+        spec = trunc_encode(fmt, neg, mag)
+        if plat is not None:
+            # cross-check the Fraction specification against struct (validates the oracle, not the code)
+            fl = FMT[fmt][2](plat)
+            if Fraction(fl) != (-mag if neg else mag) or ENC[fmt](fl) != plat or spec != plat:
+                res.disagree('oracle-vs-struct', dict(fmt=fmt, plat=plat, spec=spec, neg=neg, mag=str(mag)))
+            if got != plat:
+                fail(res, f"{origin}.convert({fmt!r}) = {got if isinstance(got, str) else hex(got)}, but the value {'-' if neg else ''}{float(mag)!r} "
+                          f"is representable in {fmt} and the platform encodes it as {plat:#x}",
+                     dict(rc, kind='fpnum-narrow', to=fmt, observed=got, expected=plat, comps=list(x.components())))
+            res.hist('narrow_representable', fmt + ':' + enc_class(fmt, plat))
+        else:
+            res.hist('narrow_inexact', fmt + ':' + enc_class(fmt, spec))
+            st.add('narrow-trunc-vs-code', f'spec-trunc {fmt} | {X}', i2s(got) if norm else 'nonnorm', (origin, fmt))
+        # the Lean specification (Helper/Spec.lean truncFields) agrees with the Fraction specification on this value
+        st.add('spec-trunc-vs-fraction', f'spec-trunc {fmt} | {X}', str(spec) if norm else 'nonnorm', (origin, fmt))
+
+
+def narrow_sources(src, dst, rng, n_random):
+    """source patterns around every boundary of the target format: for target patterns t (zero, smallest/largest subnormal,
+    smallest normal, largest finite, around 1, random) the source encodings of value(t) + {0, 1 src-ulp, half-1, half, half+1,
+    ulp-1} target ulps, both signs; beyond the largest finite / below the smallest subnormal; random"""
+    ebs, mbs, biass, emasks = fmt_consts(src)
+    ebd, mbd, biasd, emaskd = fmt_consts(dst)
+    enc_src = lambda q: platform_encode(src, 0, q)
+    out = []
+    tpats = [0, 1, 2, 3, (1 << mbd) - 1, (1 << mbd) - 2, 1 << mbd, (1 << mbd) + 1, ((emaskd - 1) << mbd) | ((1 << mbd) - 1),
+             ((emaskd - 1) << mbd) | ((1 << mbd) - 2), (emaskd - 1) << mbd, biasd << mbd, (biasd << mbd) | 1, (biasd << mbd) - 1,
+             1 << (mbd - 1), (1 << (mbd - 1)) + 1]
+    for i in range(n_random // 8):
+        tpats.append(rng.randint(0, ((emaskd) << mbd) - 1))
+        tpats.append(rng.randint(0, (2 << mbd)))              # subnormal region and the first normal binade
+    for t in tpats:
+        _, v = decode_fraction(dst, t)
+        _, vn = decode_fraction(dst, t + 1) if ((t + 1) >> mbd) < emaskd else (0, v + (v - decode_fraction(dst, t - 1)[1]))
+        ulp = vn - v
+        for num, den in ((0, 1), (1, 2), (1, 4), (3, 4)):
+            q = v + ulp * num / den
+            s0 = enc_src(q)
+            if s0 is None:
+                continue
+            for d in (0, 1, -1):
+                s = s0 + d
+                if 0 <= s < (emasks << mbs):
+                    out.append(s)
+    # overflow: 2^(emax+1) of the target and its source neighbours; far beyond; underflow: around half the smallest subnormal
+    top = Fraction(2) ** (emaskd - biasd)
+    tiny = Fraction(2) ** (1 - biasd - mbd)
+    for q in (top, top * 2, top * 1024, tiny, tiny / 2, tiny / 4, tiny * 3 / 4, tiny / 1024):
+        s0 = enc_src(q)
+        if s0 is not None:
+            for d in (0, 1, -1):
+                if 0 <= s0 + d < (emasks << mbs):
+                    out.append(s0 + d)
+    for i in range(n_random):
+        k = rng.next() % 3
+        if k == 0:
+            out.append(rng.randint(0, (emasks << mbs) - 1))
+        else:   # inside the exponent range of the target (incl. its subnormal range)
+            e = rng.randint(1 - biasd - mbd - 2, emaskd - biasd + 1) + biass
+            if 1 <= e < emasks:
+                m = rng.randint(0, (1 << mbs) - 1)
+                if k == 2:
+                    m &= ~((1 << rng.randint(0, mbs)) - 1)     # few significant bits: often representable in the target
+                out.append((e << mbs) | m)
+    sign = 1 << (ebs + mbs)
+    return [s | (sign if (i % 2) else 0) for i, s in enumerate(out)]
+
+
+def run_narrow(res, tier, rng, H, st, pool):
+    r = rng.fork('narrow')
+    n = 240 if tier == 'quick' else 3000
+    for src, dst in (('dp', 'sp'), ('dp', 'hp'), ('sp', 'hp')):
+        for b in narrow_sources(src, dst, r, n):
+            x = real(H.FPNum, b, src)
+            if isinstance(x, str):
+                fail(res, f'FPNum({b:#x},{src!r}) raised', dict(kind='fpnum-roundtrip', fmt=src, bits=b, observed=x))
+                continue
+            neg, mag = decode_fraction(src, b)
+            if not (is_finite_fp(x) and fpnum_value(x) == (-mag if neg else mag)):
+                continue          # reported by oracle_fpnum_enc's value check (kind fpnum-value) on the same pattern
+            oracle_convert_value(res, H, st, x, neg, mag, f'FPNum({b:#x},{src!r})', dict(fmt=src, bits=b))
+            res.count(('narrow', src, b), hist={'narrow_pair': src + '->' + dst})
+    # FPNum(float) for floats that are representable in single / half precision: convert(fmt) = the pattern they came from
+    for fmt, pats in (('hp', sorted(set(list(range(0, 0x0402)) + [0x7BFF, 0x7BFE, 0x7C00, 0x3C00, 0x3BFF, 0x3C01] +
+                                        [r.randint(0, 0x7BFF) for _ in range(300 if tier == 'quick' else 4000)]))),
+                      ('sp', structured_encodings('sp', r, 300 if tier == 'quick' else 4000, 2 if tier != 'quick' else 8))):
+        eb, mb, tof = FMT[fmt]
+        for b in pats:
+            for sg in (0, 1 << (eb + mb)):
+                bb = (b & ~(1 << (eb + mb))) | sg
+                if enc_class(fmt, bb) == 'nan':
+                    continue
+                f = tof(bb)
+                x = real(H.FPNum, f)
+                st.add('fpnum-float', f'fpfloat | {fl2s(f)}', fp2s(x), f)
+                if isinstance(x, str):
+                    fail(res, f'FPNum({f!r}) raised', dict(kind='fpnum-float', bits=f2dp(f), observed=x))
+                    continue
+                got = real(x.convert, fmt)
+                st.add('fpnum-convert', f'fpconv {fmt} | {fp2s(x)}', i2s(got), ('float', fmt, bb))
+                if got != bb:
+                    fail(res, f"FPNum({f!r}).convert({fmt!r}) = {got if isinstance(got, str) else hex(got)}, platform says {bb:#x}",
+                         dict(kind='fpnum-float-narrow', fmt=fmt, bits=bb, observed=got))
+                if not math.isinf(f) and is_finite_fp(x):
+                    oracle_convert_value(res, H, st, x, 1 if math.copysign(1.0, f) < 0 else 0, abs(Fraction(f)), f'FPNum({f!r})',
+                                         dict(float_bits=f2dp(f)))
+                res.count(('floatnarrow', fmt, bb), hist={'float_narrow_class': fmt + ':' + enc_class(fmt, bb)})
+    # results of exact arithmetic: whatever is representable must get the platform's encoding
+    ar = [x for x in pool if is_finite_fp(x)]
+    for i in range(350 if tier == 'quick' else 5000):
+        a, b = r.choice(ar), r.choice(ar)
+        op = r.choice(['add', 'sub', 'mul'])
+        if r.chance(1, 6):
+            b = a
+        z = real(getattr(a, op), b)
+        va, vb = fpnum_value(a), fpnum_value(b)
+        want = va + vb if op == 'add' else va - vb if op == 'sub' else va * vb
+        if not is_finite_fp(z) or fpnum_value(z) != want:
+            continue              # reported by oracle_arith on its own pairs
+        if want == 0:
+            neg = 1 if z.s < 0 else 0       # the sign of an exact zero is the implementation's choice; both zeros denote 0
+        else:
+            neg = 1 if want < 0 else 0
+        oracle_convert_value(res, H, st, z, neg, abs(want), f'FPNum{tuple(a.components())}.{op}(FPNum{tuple(b.components())})',
+                             dict(op=op, a=list(a.components()), b=list(b.components())))
+        res.count(('arith-convert', op, fp2s(a), fp2s(b)))
 
 # ---------------------------------------------------------------------------------------------- (3) FPNum arithmetic
 def is_finite_fp(x):
@@ -714,6 +916,25 @@ def run_arith(res, tier, rng, H, st, pool):
         elif k == 3:
             a = r.choice(smallobjs)
         pairs.append((a, b))
+    # the zero family in EVERY operand position of every operation: literal / decoded zeros of both signs and every format, zeros left
+    # by a cancellation (x - x, x + (-x)) or by a product with zero, against non-zero values, specials and each other
+    zeros = [real(FPNum, 0.0), real(FPNum, -0.0), real(FPNum, 0, 'sp'), real(FPNum, 0x8000, 'hp'), real(FPNum, 1 << 63, 'dp'),
+             real(FPNum, 1, 0, 0, 1), real(FPNum, -1, 5, 0, 8)]
+    nz = [x for x in pool if is_finite_fp(x) and x.m != 0]
+    for i in range(6):
+        x = r.choice(nz)
+        zeros.append(real(x.sub, x))
+        ng = real(x.neg)
+        if not isinstance(ng, str):
+            zeros.append(real(x.add, ng))
+        zeros.append(real(x.mul, r.choice(zeros[:5])))
+    zeros = [z for z in zeros if not isinstance(z, str)]
+    others = [r.choice(nz) for _ in range(10)] + [r.choice(smallobjs) for _ in range(6)] + specials[:3]
+    for z in zeros:
+        for y in others:
+            pairs.append((z, y))
+            pairs.append((y, z))
+        pairs.append((z, r.choice(zeros)))
     # operands whose precisions are not powers of two: asserts
     odd = [x for x in objs if (x.p & (x.p - 1)) != 0][:40]
     for a in odd:
@@ -776,6 +997,32 @@ def replay_case(res, H, st, rc):
         oracle_fph(res, H, st, rc['fmt'], rc['bits'])
     elif k in ('fpnum-compare', 'fpnum-arith', 'fpnum-purity'):
         oracle_arith(res, H, st, mk(rc['a']), mk(rc['b']), [])
+    elif k == 'fpnum-narrow':
+        if 'bits' in rc:
+            x = real(FP, rc['bits'], rc['fmt'])
+            neg, mag = decode_fraction(rc['fmt'], rc['bits'])
+            origin = f"FPNum({rc['bits']:#x},{rc['fmt']!r})"
+        elif 'float_bits' in rc:
+            f = dp2f(rc['float_bits'])
+            x = real(FP, f)
+            neg, mag, origin = (1 if math.copysign(1.0, f) < 0 else 0), abs(Fraction(f)), f'FPNum({f!r})'
+        else:
+            a, b = mk(rc['a']), mk(rc['b'])
+            x = real(getattr(a, rc['op']), b)
+            origin = f"FPNum{tuple(rc['a'])}.{rc['op']}(FPNum{tuple(rc['b'])})"
+            if is_finite_fp(x):
+                v = fpnum_value(x)
+                neg, mag = (1 if (v < 0 or (v == 0 and x.s < 0)) else 0), abs(v)
+        if is_finite_fp(x):
+            oracle_convert_value(res, H, st, x, neg, mag, origin, {kk: vv for kk, vv in rc.items() if kk in ('fmt', 'bits', 'float_bits', 'op', 'a', 'b')})
+        else:
+            fail(res, f'{origin} is not a finite FPNum', rc)
+    elif k == 'fpnum-float-narrow':
+        f = FMT[rc['fmt']][2](rc['bits'])
+        x = real(FP, f)
+        got = x if isinstance(x, str) else real(x.convert, rc['fmt'])
+        if got != rc['bits']:
+            fail(res, f"FPNum({f!r}).convert({rc['fmt']!r}) = {got}, platform says {rc['bits']:#x}", dict(rc, observed=got))
     elif k == 'fpnum-float':
         b = rc['bits']
         x = real(FP, dp2f(b))
@@ -830,13 +1077,17 @@ def main(res, tier, rng, replay):
     st = Streams(res)
     if not okm:
         st.dead = True
-    run_corpus(res, H, st, replay)
-    run_c2(res, tier, rng, H, st)
-    run_fx(res, tier, rng, H, st)
+    import time
+    walls = {}
     pool = []
-    run_encodings(res, tier, rng, H, st, pool)
-    run_arith(res, tier, rng, H, st, pool)
-    st.flush()
+    for name, fn in (('corpus', lambda: run_corpus(res, H, st, replay)), ('c2', lambda: run_c2(res, tier, rng, H, st)),
+                     ('fx', lambda: run_fx(res, tier, rng, H, st)), ('encodings', lambda: run_encodings(res, tier, rng, H, st, pool)),
+                     ('narrow', lambda: run_narrow(res, tier, rng, H, st, pool)), ('arith', lambda: run_arith(res, tier, rng, H, st, pool)),
+                     ('flush', st.flush)):
+        t0 = time.time()
+        fn()
+        walls[name] = round(time.time() - t0, 1)
+    res.cov['wall_by_stage_s'] = walls
     res.cov['model_vs_implementation_lines'] = st.n
     res.cov['disagreements_by_stream'] = st.ndis
     res.cov['rule'] = ('distinct = distinct (function, arguments) case. two\'s complement / signExtend: all values for widths <= 6 (8 thorough) '
